@@ -1,5 +1,6 @@
 import CircBuf.Lemmas.Faults
 import CircBuf.Lemmas.FillFault
+import CircBuf.Lemmas.CtorFault
 /-!
 # C05 — a panicking element destructor never causes a second drop or a corrupt buffer
 
@@ -19,7 +20,15 @@ The fault plan is a counter: "the `k`-th destructor call from now panics" (`faul
 * `fill(value)` (`C05_fill`): when a destructor panics while the old contents are cleared, every old
   element was still destroyed exactly once, `value` (owned by the callee) is destroyed exactly once,
   and the buffer is left empty and valid.
-`From<[T; M]>`, `fill_with`, `extend_from_slice`, `clone_from` are covered by the fault-plan
+* `clone_from(other)` (`C05_clone_from`): a destructor panic while the old contents are cleared
+  propagates before anything is cloned; every old element was destroyed exactly once; the buffer is
+  empty and valid.
+* `From<[T; M]>` (`C05_from_array`): a destructor panic while the surplus `M - N` elements of the array
+  are destroyed — every surplus element is still destroyed exactly once, and the buffer under
+  construction is dropped during unwinding, destroying each kept element exactly once: all `M`
+  elements exactly once, none twice (the defect F4 of the unrepaired code, as a theorem about the
+  repaired code).
+`fill_with`, `extend_from_slice` are covered by the fault-plan
 correspondence (every operation × every layout × every `k`) and the ledger oracle.
 -/
 namespace CircBuf
@@ -63,6 +72,21 @@ theorem C05_fill (s : Sys) (value : Elem) (h : Inv s.buf)
       s'.buf.cap = s.buf.cap ∧
       s'.log = dropEvents s.kind [value] ++ dropEvents s.kind (abs s.buf) ++ s.log :=
   fill_drop_fault s value h hk hfire
+
+theorem C05_clone_from (other : List Elem) (s : Sys) (h : Inv s.buf)
+    (hk : ¬ (s.kind = .byte ∨ s.kind = .plain))
+    (hfire : 1 ≤ s.faults.drop ∧ s.faults.drop ≤ s.buf.size) :
+    ∃ s', cloneFrom other s = (.error (.user "drop"), s') ∧ PostDrop s s' [] (abs s.buf) :=
+  cloneFrom_drop_fault other s h hk hfire
+
+theorem C05_from_array (s : Sys) (arr : List Elem) (hW : s.buf.cap < W)
+    (hk : ¬ (s.kind = .byte ∨ s.kind = .plain))
+    (hfire : 1 ≤ s.faults.drop ∧ s.faults.drop ≤ arr.length - s.buf.cap) :
+    ∃ s', fromArray arr s = (.error (.user "drop"), s') ∧ Inv s'.buf ∧ abs s'.buf = [] ∧
+      s'.buf.cap = s.buf.cap ∧
+      s'.log = dropEvents s.kind (Spec.lastN s.buf.cap arr) ++
+        (dropEvents s.kind (arr.take (arr.length - s.buf.cap)) ++ s.log) :=
+  fromArray_drop_fault s arr hW hk hfire
 
 /-- non-vacuity: the 2nd of 3 destructor calls panics — the outcome is a panic, not `ok` -/
 example : dropOutcome 2 3 = .error (.user "drop") := by simp [dropOutcome]
